@@ -353,7 +353,7 @@ def _global_records(draw):
 
 _RACE_KNOBS = st.tuples(
     st.sampled_from([1, 2, 2, 3, 3, 4]),
-    st.sampled_from(["small"] * 41 + ["large"] * 7 + ["huge"]),
+    st.sampled_from(["small"] * 38 + ["large"] * 6 + ["huge"]),
     st.integers(0, 3),
     st.sampled_from([True, True, False]),
     st.sampled_from([None, None, {"tag": "x"}]),
